@@ -122,7 +122,8 @@ def obs_descriptors(case):
 
 
 def make_dataset(case, x):
-    return Dataset(x, obs_descriptors=obs_descriptors(case))
+    # (the same values in C / Fortran / strided / transposed memory, by shape)
+    return Dataset(gen.relayout(x), obs_descriptors=obs_descriptors(case))
 
 
 def call_kwargs(case):
